@@ -86,14 +86,26 @@ class Histories:
 
     # ---- the real code, one operation at a time -----------------------------------------------------------
     @staticmethod
-    def _h_tree_files(pkg: str, k: int, safe: bool, helper: bool = False) -> dict:
+    def _h_tree_files(pkg: str, k: int, safe: bool, helper: bool = False, mods: dict = None) -> dict:
+        """the files of tree `k` laid out for the (possibly dotted) package `pkg` and the module map `mods`
+        (values: a bare name relative to the package, or an absolute name inside it)"""
         tok = f'Tok{k}'
-        files = {f'{pkg}/__init__.py': '', f'{pkg}/source.py': Histories.SRC_T.format(tok=tok), f'{pkg}/pipeline.py': Histories.PIPE_T.format(tok=tok)}
+        parts = pkg.split('.')
+        base = '/'.join(parts)
+        files = {'/'.join(parts[:i + 1]) + '/__init__.py': '' for i in range(len(parts))}
+
+        def where(component):
+            name = (mods or {}).get(component) or component
+            if name.startswith(pkg + '.'):
+                name = name[len(pkg) + 1:]
+            return f'{base}/{name.replace(".", "/")}.py'
+
+        files[where('source')] = Histories.SRC_T.format(tok=tok)
+        files[where('pipeline')] = Histories.PIPE_H if helper else Histories.PIPE_T.format(tok=tok)
         if helper:
-            files[f'{pkg}/pipeline.py'] = Histories.PIPE_H
-            files[f'{pkg}/common.py'] = f'TOKEN = {tok!r}\n'
+            files[f'{base}/common.py'] = f'TOKEN = {tok!r}\n'
         if not safe:
-            files[f'{pkg}/data{k}.csv'] = 'a,b\n1,2\n'
+            files[f'{base}/data{k}.csv'] = 'a,b\n1,2\n'
         return files
 
     @staticmethod
@@ -172,7 +184,7 @@ class Histories:
             sys.dont_write_bytecode = not w['bc']
             trees = w['trees']
             for k, tr in enumerate(trees):
-                for rel, text in self._h_tree_files(w['pkg'], k, tr['safe'], bool(w.get('helper'))).items():
+                for rel, text in self._h_tree_files(tr.get('pkg', w['pkg']), k, tr['safe'], bool(w.get('helper')), tr.get('mods')).items():
                     f = base / f'src{k}' / rel
                     f.parent.mkdir(parents=True, exist_ok=True)
                     f.write_text(text)
@@ -183,7 +195,8 @@ class Histories:
                 stale = [i for i in involved if loc(i).is_dir() and self._h_stale_pyc(loc(i))]
                 kind = [i for i in involved if self._h_finder_kind(loc(i)) not in (None, self._h_kind(loc(i))) and self._h_kind(loc(i)) is not None]
                 tick = None
-                sibling = bool(w.get('helper')) and f'{w["pkg"]}.common' in sys.modules  # a helper module of an earlier load is still imported
+                # a helper module of an earlier load is still imported
+                sibling = bool(w.get('helper')) and any(f'{tr.get("pkg", w["pkg"])}.common' in sys.modules for tr in trees)
                 pre = [self._h_kind(loc(i)) for i in range(nloc)]
                 try:
                     if op[0] == 'write':
@@ -241,7 +254,7 @@ class Histories:
             for name in set(sys.modules) - mods0:
                 m = sys.modules.get(name)
                 origin = str(getattr(m, '__file__', None) or getattr(getattr(m, '__spec__', None), 'origin', '') or '')
-                if origin.startswith(str(base)) or name == '__4ml__' or name.split('.')[0] == w['pkg']:
+                if origin.startswith(str(base)) or name == '__4ml__' or name.split('.')[0] in {tr.get('pkg', w['pkg']).split('.')[0] for tr in w['trees']}:
                     sys.modules.pop(name, None)
             for key in list(sys.path_importer_cache):
                 if key.startswith(str(base)):
@@ -339,26 +352,35 @@ class Histories:
     H_VERSIONS = ['1.0', '1.1', '1.0.0', '1.10', '2.0a1', '1.0.post1', '0.9', '1.2']
 
     def _h_gen(self, serial: int) -> dict:
-        r = self.rng
-        pkg = f'c18s{self.seed}x{serial}'
-        ntrees = r.choice([2, 2, 3])
-        trees = [{'safe': r.random() < 0.6} for _ in range(ntrees)]
-        if r.random() < 0.3:
-            for t in trees:
-                t['safe'] = trees[0]['safe']
-        versions = r.sample(self.H_VERSIONS, r.choice([2, 3, 3, 4]))
-        name = r.choice(['proj', 'demo-project', 'p'])
-        modules = r.choice([{}, {}, {'source': f'{pkg}.source'}, {'pipeline': 'pipeline'}])
-        manifests = [[name, v, pkg, dict(modules)] for v in versions]
-        ambiguous = r.random() < 0.15
+        """One project (name) in 2..4 versions and 1..2 LAYOUTS: builds of one name and version may differ in the package
+        name (renamed, moved into a sub-package) or in the module map; every (version, layout) has its own content."""
         from props.c18 import pep440_key  # late: circular import
 
-        klass: dict = {}
-        tree_of = []
-        for v in versions:
-            key = pep440_key(v)
+        r = self.rng
+        pkg = f'c18s{self.seed}x{serial}'
+        layouts = [{'pkg': pkg, 'mods': {}}]
+        if r.random() < 0.6:
+            layouts.append(r.choice([{'pkg': pkg + 'b', 'mods': {}}, {'pkg': f'{pkg}.core', 'mods': {}}, {'pkg': pkg, 'mods': {'pipeline': 'flow'}},
+                                     {'pkg': pkg, 'mods': {'source': f'{pkg}.feed'}}, {'pkg': pkg, 'mods': {'pipeline': 'pipeline'}},
+                                     {'pkg': pkg, 'mods': {'source': 'feed', 'pipeline': f'{pkg}.flow'}}]))
+        elif r.random() < 0.5:
+            layouts[0]['mods'] = r.choice([{'source': f'{pkg}.source'}, {'pipeline': 'pipeline'}])
+        versions = r.sample(self.H_VERSIONS, r.choice([2, 3, 3, 4]))
+        name = r.choice(['proj', 'demo-project', 'p'])
+        builds = [(v, li) for v in versions for li in range(len(layouts))]
+        builds = r.sample(builds, min(len(builds), r.choice([2, 3, 4, 5])))
+        manifests = [[name, v, layouts[li]['pkg'], dict(layouts[li]['mods'])] for v, li in builds]
+        ambiguous = r.random() < 0.15
+        allsafe = r.choice([None, None, True, False])
+        trees, klass, tree_of = [], {}, []
+        for v, li in builds:
+            key = (pep440_key(v), li)
             if key not in klass:
-                klass[key] = len(klass) % ntrees
+                klass[key] = [len(trees)]
+                trees.append({'safe': r.random() < 0.6 if allsafe is None else allsafe, 'pkg': layouts[li]['pkg'], 'mods': dict(layouts[li]['mods'])})
+                if ambiguous and r.random() < 0.6:  # a second content under the very same manifest
+                    klass[key].append(len(trees))
+                    trees.append(dict(trees[-1]))
             tree_of.append(klass[key])
         nloc = r.choice([1, 2, 2, 3])
         ops, t = [], 0
@@ -371,7 +393,7 @@ class Histories:
                 ops.append(['write', p, r.randrange(len(manifests)), t])
             elif kind == 'create':
                 j = r.randrange(len(manifests))
-                ops.append(['create', p, j, r.randrange(ntrees) if ambiguous else tree_of[j]])
+                ops.append(['create', p, j, r.choice(tree_of[j])])
             elif kind == 'install':
                 ops.append(['install', p, r.randrange(nloc), t])
             else:
@@ -406,6 +428,15 @@ class Histories:
         # two releases of one project whose components share a helper module, loaded in one process (C18-F8)
         {'bc': False, 'helper': True, 'trees': [{'safe': True}, {'safe': True}], 'manifests': [['p', '1.0', 'PKG', {}], ['p', '2.0', 'PKG', {}]],
          'nloc': 2, 'ops': [['create', 0, 0, 0], ['create', 1, 1, 1], ['install', 0, 0, 0], ['install', 1, 1, 1]]},
+        # one name and version rebuilt in a renamed / moved package, installed over the earlier build
+        {'bc': False, 'trees': [{'safe': True, 'pkg': 'PKG'}, {'safe': True, 'pkg': 'PKGb.core'}],
+         'manifests': [['demo', '1.0', 'PKG', {}], ['demo', '1.0', 'PKGb.core', {}]],
+         'nloc': 3, 'ops': [['create', 0, 0, 0], ['create', 1, 1, 1], ['install', 0, 2, 1], ['install', 1, 2, 2], ['read', 2], ['install', 0, 2, 3], ['read', 2]]},
+        # … and rebuilt with another module map (same package, same files otherwise)
+        {'bc': False, 'trees': [{'safe': False, 'pkg': 'PKG'}, {'safe': False, 'pkg': 'PKG', 'mods': {'pipeline': 'flow'}}, {'safe': False, 'pkg': 'PKG', 'mods': {'pipeline': 'pipeline'}}],
+         'manifests': [['demo', '1.0', 'PKG', {}], ['demo', '1.0', 'PKG', {'pipeline': 'flow'}], ['demo', '1.0', 'PKG', {'pipeline': 'pipeline'}]],
+         'nloc': 4, 'ops': [['create', 0, 0, 0], ['create', 1, 1, 1], ['create', 2, 2, 2], ['install', 0, 3, 1], ['install', 1, 3, 2], ['read', 3],
+                            ['install', 2, 3, 3], ['read', 3], ['install', 0, 3, 4]]},
         # equal manifests spelled differently: the target is kept
         {'bc': False, 'trees': [{'safe': True}], 'manifests': [['p', '1.0', 'PKG', {}], ['p', '1.0.0', 'PKG', {}]],
          'nloc': 3, 'ops': [['create', 0, 0, 0], ['create', 1, 1, 0], ['install', 0, 2, 1], ['install', 1, 2, 2], ['read', 2]]},
